@@ -5,4 +5,14 @@ RIds == {1, 2, 3}
 RPar == (1 :> {} @@ 2 :> {1} @@ 3 :> {})
 RClock == (1 :> 1 @@ 2 :> 2 @@ 3 :> 1)
 RWriter == (1 :> 2 @@ 2 :> 2 @@ 3 :> 3)
+\* behaviours that dwell on loads: the database is filled first, then only loads (full and limited) and restarts follow
+\* (random simulation of Spec meets "a limited load after a smaller limited load" too rarely for the quick tier)
+Filling == up /\ loaded = "full" /\ Cardinality(log) < 4 /\ stops = 0
+LWrite == Filling /\ Write
+LReplicate(h) == Filling /\ Replicate(h)
+LLoadFull == ~Filling /\ LoadFull
+LLoadLimited(n) == ~Filling /\ LoadLimited(n)
+LStop == ~Filling /\ Stop
+LoadsNext == LWrite \/ LLoadFull \/ LStop \/ Open \/ (\E h \in RemoteIds : LReplicate(h)) \/ (\E n \in 1..3 : LLoadLimited(n))
+LoadsSpec == Init /\ [][LoadsNext]_vars
 =============================================================================
